@@ -7,7 +7,6 @@ package c18
 
 import (
 	"fmt"
-	"os"
 	"sort"
 	"strings"
 	"sync"
@@ -600,7 +599,7 @@ func TestCheck(t *testing.T) {
 	if unknown > 0 {
 		r.Inconclusive(fmt.Sprintf("%d porcupine checks timed out", unknown))
 	}
-	os.Exit(r.Finish(300))
+	h.Exit(r.Finish(300))
 }
 
 func encode(m model) string {
